@@ -146,10 +146,20 @@ class Eval:
         return r
 
     def rel(self, op, a, b):
-        """order comparison of two words whose high fields are known equal"""
+        """unsigned order comparison of two abstract words: lexicographic over (X, SIX, S count, rest); decided when
+        a higher field already differs, or when all higher fields are equal and the rest fields are comparable"""
         if None in (a.x, a.six, b.x, b.six) or a.s is None or b.s is None:
             return None
-        if (a.x, a.six) != (b.x, b.six) or a.s != b.s or a.s[0] != a.s[1]:
+        hi_a, hi_b = (a.x, a.six), (b.x, b.six)
+        if hi_a != hi_b:
+            c = (hi_a > hi_b) - (hi_a < hi_b)
+            return {'<': c < 0, '>': c > 0, '<=': c <= 0, '>=': c >= 0}[op]
+        # shared-holder counts: ranges [lo, hi]
+        if a.s[1] < b.s[0]:
+            return {'<': True, '>': False, '<=': True, '>=': False}[op]
+        if b.s[1] < a.s[0]:
+            return {'<': False, '>': True, '<=': False, '>=': True}[op]
+        if a.s != b.s or a.s[0] != a.s[1]:
             return None
         ra, rb = a.rest, b.rest
         if ra is None or rb is None:
@@ -233,6 +243,9 @@ class Eval:
                 return p
             if p == (0, 0):
                 return q
+            if p is not None and q is not None and p[0] == p[1] and q[0] == q[1]:
+                v = p[0] | q[0]          # exact counts: bitwise or of the two field values
+                return (v, v) if v < 3 else (3, INF)
             return None
 
         def rs(p, q):
